@@ -149,6 +149,17 @@ def oracle(case):
     df = np.asarray(cd.draw_sample(1, gi.astype(float), random_state=3), dtype=float)
     if di.shape != df.shape or not np.array_equal(di, df):
         return (dict(sig, clause="integer-given", method="draw_sample"), "draw_sample with an integer-typed given vector differs from the same values as floats")
+    # history: another conditional distribution of the same family that fixes the same parameter names at OTHER values is
+    # created and evaluated; this one still evaluates with its own fixed values
+    if fixed:
+        before = [float(cd.cdf(x, g)) for x, g in zip(xs, gs)]
+        fixed2 = {p: (v * 1.6 + 0.25) for p, v in fixed.items()}
+        cd2 = dm.ConditionalDistribution(Cls(**{"f_" + p: v for p, v in fixed2.items()}), dict(deps))
+        cd2.cdf(xs[0], gs[0])
+        after = [float(cd.cdf(x, g)) for x, g in zip(xs, gs)]
+        if not np.array_equal(np.array(before), np.array(after), equal_nan=True):
+            return (dict(sig, clause="history-other-instance"),
+                    "%s conditional with fixed %r: cdf changes from %r to %r after another ConditionalDistribution with fixed %r was created" % (cname, fixed, before, after, fixed2))
     # history: evaluating, changing the caller's array in place, evaluating again uses the NEW values
     buf = np.array(case["gs"], dtype=float)
     first = np.asarray(cd.cdf(np.full(len(buf), xs[0]), buf), dtype=float)
@@ -192,6 +203,30 @@ def chained_oracle(rng):
         got = f_out(g)
         if not np.allclose(got, want, rtol=1e-15):
             return ({"cls": "DependenceFunction", "clause": "chained"}, "chained dependence function at %r gives %r, expected %r" % (g, got, want))
+    # chained on SEVERAL different inner dependence functions: each keyword is bound to its own function
+    a1_, b1_, c1_ = rng.uniform(0.5, 2), rng.uniform(0.1, 1), rng.uniform(0.3, 0.9)
+
+    def inner2(x, a=a1_, b=b1_, c=c1_):
+        return a + b * x ** c
+
+    def inner3(x, a=0.7):
+        return a * np.exp(-0.1 * x)
+
+    def outer2(x, d=0.5, first=None, second=None):
+        return first(x) * d + 3.0 * second(x)
+
+    def outer3(x, first=None, second=None, third=None):
+        return first(x) + 10.0 * second(x) + 100.0 * third(x)
+    f_in2, f_in3 = DependenceFunction(inner2), DependenceFunction(inner3)
+    f_o2 = DependenceFunction(outer2, first=f_in, second=f_in2)
+    f_o2r = DependenceFunction(outer2, second=f_in, first=f_in2)
+    f_o3 = DependenceFunction(outer3, third=f_in3, first=f_in, second=f_in2)
+    for g in (0.3, 2.5, np.array([1.0, 4.0, 9.0])):
+        v1, v2, v3 = a0 + b0 * g, a1_ + b1_ * g ** c1_, 0.7 * np.exp(-0.1 * g)
+        for name, got, want in (("outer(first=lin, second=pow)", f_o2(g), v1 * 0.5 + 3.0 * v2), ("outer(first=pow, second=lin)", f_o2r(g), v2 * 0.5 + 3.0 * v1),
+                                ("outer(first, second, third)", f_o3(g), v1 + 10.0 * v2 + 100.0 * v3)):
+            if not np.allclose(got, want, rtol=1e-14):
+                return ({"cls": "DependenceFunction", "clause": "chained-several"}, "%s at %r gives %r, expected %r (each inner function evaluated at the same g)" % (name, g, got, want))
     if list(f_out.parameters) != ["d"] or f_out.parameters["d"] != 0.5:
         return ({"cls": "DependenceFunction", "clause": "signature"}, "parameters after binding: %r" % (f_out.parameters,))
     if not np.allclose(f_in(2.0), a0 + 2 * b0) or not np.allclose(f_in(2.0, 1.0, 3.0), 7.0):
